@@ -11,6 +11,7 @@ every put on one of their queues is recorded in order.  Compared with
     escaping exception, independent of the chunking.
 `Command.from_frame` succeeding or raising TypeError on an observed frame is an
 oracle of model and reference; it is probed from the real receiver itself."""
+from common import exc_name  # noqa: E402
 import itertools
 import logging
 from common import Model, InfraError
@@ -113,7 +114,7 @@ class Real:
             try:
                 self.p.data_received(bytes(c))
             except Exception as e:  # noqa
-                self.errs.append(type(e).__name__)
+                self.errs.append(exc_name(e))
 
     def queue_contents(self):
         """what a consumer would find on the queues (observe_at of the property)"""
@@ -157,7 +158,7 @@ def redecode_class(bits, data, dt):
             c = command.Command.from_frame(frame.ForwardFrame(bits, data), devicetype=dt)
             _redecode_cache[k] = type(c).__name__
         except Exception as e:  # noqa
-            _redecode_cache[k] = "!" + type(e).__name__
+            _redecode_cache[k] = "!" + exc_name(e)
     return _redecode_cache[k]
 
 
